@@ -265,7 +265,9 @@ func OwnerID(n, of int) string {
 
 // PartTokens are the (immutable) tokens a descriptor built with tag `tag` gives partition p:
 // they tell afterwards whose copy of the partition survived.
-func PartTokens(p int, tag uint32) []uint32 { return []uint32{uint32(p)*1000 + tag, uint32(p)*1000 + tag + 500} }
+func PartTokens(p int, tag uint32) []uint32 {
+	return []uint32{uint32(p)*1000 + tag, uint32(p)*1000 + tag + 500}
+}
 
 func BuildPDesc(d PDesc, tag uint32) *ring.PartitionRingDesc {
 	out := ring.NewPartitionRingDesc()
